@@ -112,6 +112,13 @@ func (V *Verifier) runProperty(spec *propSpec) *checkResult {
 	}
 	obls = selectForProperty(spec.ID, obls)
 	obls = append(obls, V.lemmaObligations(spec)...)
+	for _, x := range spec.Extras {
+		if x == "table:typing" {
+			smt, dec := V.typingObligations(spec)
+			obls = append(obls, smt...)
+			res.extraObls = append(res.extraObls, dec...)
+		}
+	}
 	res.obls = obls
 	t1 := time.Now()
 	V.discharge(obls)
@@ -387,7 +394,7 @@ func (V *Verifier) sampleObligations(all, failed []*Oblig) []any {
 
 func (V *Verifier) assumptionList(spec *propSpec) []string {
 	var out []string
-	b, err := os.ReadFile("/verif/spec/ASSUMPTIONS.md")
+	b, err := os.ReadFile(specDir() + "/ASSUMPTIONS.md")
 	if err == nil {
 		re := regexp.MustCompile(`^\* \*\*(A-[A-Z0-9-]+)\*\*\s*(.*)$`)
 		for _, line := range strings.Split(string(b), "\n") {
